@@ -53,7 +53,7 @@ def trace_cfg(open_kf=(), cache='CP_K', invariants=('InvView', 'InvAtomic', 'Inv
     return '\n'.join(lines)
 
 
-def validate_batch(traces, cfg=None, module='FBTrace.tla', timeout=1800, workdir=None, open_kf=()):
+def validate_batch(traces, cfg=None, module='FBTrace.tla', timeout=1800, workdir=None, open_kf=(), cache='CP_K'):
     """Validate one batch of traces in one JVM.  Returns (verdicts, stats, out)."""
     own = workdir is None
     workdir = workdir or tempfile.mkdtemp(prefix='fbv_tlc_', dir=scratch_root())
@@ -61,7 +61,7 @@ def validate_batch(traces, cfg=None, module='FBTrace.tla', timeout=1800, workdir
         if cfg is None:
             cfg = os.path.join(workdir, 'trace.cfg')
             with open(cfg, 'w') as f:
-                f.write(trace_cfg(open_kf))
+                f.write(trace_cfg(open_kf, cache))
         tf = os.path.join(workdir, 'traces.ndjson')
         with open(tf, 'w') as f:
             for t in traces:
@@ -96,14 +96,18 @@ def validate(traces, jobs=16, batch=None, cfg=None, module='FBTrace.tla', timeou
     ids = [t['id'] for t in traces]
     if len(set(ids)) != len(ids):
         raise TlcError('duplicate trace ids')
-    if batch is None:
-        batch = max(1, (len(traces) + jobs - 1) // jobs)
-    chunks = [traces[i:i + batch] for i in range(0, len(traces), batch)]
+    groups = {}
+    for t in traces:      # one configuration constant per cache path
+        groups.setdefault('CP_CK' if t.get('cache') == ['c', 'k'] else 'CP_K', []).append(t)
+    chunks = []
+    for cp, ts in groups.items():
+        b = batch or max(1, (len(ts) + jobs - 1) // jobs)
+        chunks += [(cp, ts[i:i + b]) for i in range(0, len(ts), b)]
     t0 = time.time()
     verdicts = {}
     tot = {'states': 0, 'distinct': 0, 'depth': 0, 'jvms': len(chunks)}
     with ThreadPoolExecutor(max_workers=jobs) as ex:
-        for v, st, _ in ex.map(lambda c: validate_batch(c, cfg, module, timeout, None, open_kf), chunks):
+        for v, st, _ in ex.map(lambda c: validate_batch(c[1], cfg, module, timeout, None, open_kf, c[0]), chunks):
             verdicts.update(v)
             tot['states'] += st['states']
             tot['distinct'] += st['distinct']
